@@ -357,8 +357,23 @@ func c20c(c *Ctx) {
 				v := c.fieldAtUse(fn, a, "Value", lastUse(a))
 				if strings.Contains(v, "Literal="+key) {
 					same = true
+					// every case that is recorded went through the seen-set
+					if h := loopHeaders(fn)[mu.Block()]; h != nil {
+						body := loopBody(h)
+						unchecked := false
+						for _, sc := range h.Succs {
+							if !body[sc] || sc == h {
+								continue
+							}
+							if _, found := existsPath(pathQuery{from: point{sc, 0}, avoid: func(x ssa.Instruction) bool { return x == ssa.Instruction(mu) }, edgeOK: notErrorEdge, stopAt: func(x ssa.Instruction) bool { return x.Block() == h }, target: func(x ssa.Instruction) bool { return x == ssa.Instruction(a) }}); found {
+								unchecked = true
+							}
+						}
+						c.Check(!unchecked, name+"/duplicate-case/every-case-checked", c.W.Pos(mu.Pos()), "no case is recorded without its value having been entered into the seen-set", "a case can be recorded without its value having gone through the duplicate test (the seen-set insertion at this line can be bypassed on the way to the case record)")
+					}
 				}
 			}
+			c.Check(len(foundNotRejected(fn, mu.Map, mu)) == 0, name+"/duplicate-case/duplicate-is-error", c.W.Pos(mu.Pos()), "a value that was seen before always ends in an error", "a case value that was seen before is not always rejected: the branch on which the lookup succeeded can continue")
 			c.Check(same, name+"/duplicate-case/key-is-emitted-value", c.W.Pos(mu.Pos()), "the seen-set is keyed by the literal that is stored in the case (the value after constant substitution)", "the duplicate test is keyed by "+pretty(key)+", which is not the literal stored in SwitchCase.Value: two cases that differ in spelling but compile to the same value would both be accepted")
 			// error location: range from the 'case' keyword to the current token
 			errOK := false
@@ -508,6 +523,12 @@ func c20d(c *Ctx) {
 			case strings.HasSuffix(key, ".Name") && strings.Contains(listT, ".Texts"):
 				nText++
 				c.Check(guard, name+"/text-names/check-before-insert", pos, "text name inserted only after the lookup of the same name failed", "text name "+pretty(key)+" inserted without a failed lookup of the same name")
+				c.Check(len(foundNotRejected(f, mu.Map, mu)) == 0, name+"/text-names/clash-is-error", pos, "a name that is already taken always ends in an error", "a text name that is already taken is not always rejected: the branch on which the lookup succeeded can continue (a label would be defined twice)")
+				if w, skip := loopSkip(f, mu); skip {
+					c.Bad(name+"/text-names/every-text", pos, "some texts are not entered into the name set (an iteration can reach "+c.nearPos(w)+" without the insertion): a later text of the same name is not reported")
+				} else {
+					c.OK(name+"/text-names/every-text", pos, "every text is entered into the name set")
+				}
 				c.Check(!bypass, name+"/text-names/not-bypassed", pos, "no successful return without the text clash check", "ParseProgram can return successfully without having run the text name clash check (whether a clash is reported would depend on what else is in the file)")
 				c.Check(after, name+"/text-names/after-hoisting", pos, "the clash check runs after all statements were parsed (all hoisted texts exist)", "the text clash check can run before parsing is complete")
 				okInline, okExplicit := false, false
@@ -524,6 +545,12 @@ func c20d(c *Ctx) {
 			case strings.HasSuffix(key, ".Name.Value") && (strings.Contains(listT, ".TopLevelStatements") || strings.Contains(key, "MovementStatement")):
 				nMove++
 				c.Check(guard, name+"/movement-names/check-before-insert", pos, "movement name inserted only after the lookup of the same name failed", "movement name "+pretty(key)+" inserted without a failed lookup of the same name")
+				c.Check(len(foundNotRejected(f, mu.Map, mu)) == 0, name+"/movement-names/clash-is-error", pos, "a name that is already taken always ends in an error", "a movement name that is already taken is not always rejected: the branch on which the lookup succeeded can continue (a label would be defined twice)")
+				if w, skip := loopSkipEdges(f, notErrorNorOtherType, mu); skip {
+					c.Bad(name+"/movement-names/every-movement", pos, "some movements are not entered into the name set (an iteration can reach "+c.nearPos(w)+" without the insertion)")
+				} else {
+					c.OK(name+"/movement-names/every-movement", pos, "every movement statement is entered into the name set")
+				}
 				c.Check(!bypass, name+"/movement-names/not-bypassed", pos, "no successful return without the movement clash check", "ParseProgram can return successfully without having run the movement name clash check (whether a clash is reported would depend on what else is in the file)")
 				c.Check(after, name+"/movement-names/after-hoisting", pos, "the clash check runs after all statements were parsed", "the movement clash check can run before parsing is complete")
 				okInline := false
@@ -532,6 +559,11 @@ func c20d(c *Ctx) {
 						for _, e := range appendElems(st.Val) {
 							if strings.Contains(c.term(fn, e), "$0.inlineMovements") {
 								okInline = true
+								if w, skip := loopSkip(fn, st); skip {
+									c.Bad(name+"/movement-names/every-hoisted-movement", c.W.Pos(st.Pos()), "some hoisted movements are not added to the program (an iteration can reach "+c.nearPos(w)+" without the append): the label a command refers to would never be defined")
+								} else {
+									c.OK(name+"/movement-names/every-hoisted-movement", c.W.Pos(st.Pos()), "every hoisted movement is added to the program")
+								}
 							}
 						}
 					}
@@ -640,10 +672,26 @@ func c20e(c *Ctx) {
 					if returned && strings.HasPrefix(k, "(*emitter.chunk).getLabel(") && strings.Contains(k, fmt.Sprintf(",$%d)", i)) && c.term(rc, a) == "$2" {
 						okBuild = true
 						builtBy = hc
+						if w, skip := loopSkip(g, mu); skip {
+							c.Bad("renderChunks/chunk-labels-every-chunk", c.W.Pos(mu.Pos()), "some chunks are left out of the chunk-label set (an iteration can reach "+c.nearPos(w)+" without the insertion)")
+						}
 					}
 				}
 			})
 		}
+	}
+	if chunkLabelsMap != nil {
+		instrs(rc, func(in ssa.Instruction) {
+			if mu, ok := in.(*ssa.MapUpdate); ok && mu.Map == chunkLabelsMap {
+				w, skip := loopSkip(rc, mu)
+				c.Check(!skip, "renderChunks/chunk-labels-every-chunk", c.W.Pos(mu.Pos()), "no chunk is left out of the chunk-label set", func() string {
+					if !skip {
+						return ""
+					}
+					return "some chunks are left out of the chunk-label set (an iteration can reach " + c.nearPos(w) + " without the insertion): a script label equal to such a chunk's label is accepted and defined twice"
+				}())
+			}
+		})
 	}
 	c.Check(okBuild, "renderChunks/chunk-labels-built", c.W.FuncPos(rc), "generated label of every chunk of the script is collected", "renderChunks does not collect getLabel(scriptName) of its chunks")
 	if chunkLabelsMap != nil {
@@ -704,10 +752,26 @@ func c20e(c *Ctx) {
 					if returned && strings.HasPrefix(k, fmt.Sprintf("$%d[", i)) && strings.HasSuffix(k, "].Name") && c.term(emit, a) == "$0.program.Texts" {
 						okTexts = true
 						textMap = hc
+						if w, skip := loopSkip(g, mu); skip {
+							c.Bad("Emit/text-labels-every-text", c.W.Pos(mu.Pos()), "some program texts are left out of the text-label set (an iteration can reach "+c.nearPos(w)+" without the insertion)")
+						}
 					}
 				}
 			})
 		}
+	}
+	for _, f := range []*ssa.Function{emit} {
+		instrs(f, func(in ssa.Instruction) {
+			if mu, ok := in.(*ssa.MapUpdate); ok && mu.Map == textMap {
+				w, skip := loopSkip(f, mu)
+				c.Check(!skip, "Emit/text-labels-every-text", c.W.Pos(mu.Pos()), "no program text is left out of the text-label set", func() string {
+					if !skip {
+						return ""
+					}
+					return "some program texts are left out of the text-label set (an iteration can reach " + c.nearPos(w) + " without the insertion): a script label equal to such a text's name is accepted and defined twice"
+				}())
+			}
+		})
 	}
 	c.Check(okTexts, "Emit/text-labels-built", c.W.FuncPos(emit), "the text-label set holds the name of every program text (hoisted and explicit)", "Emit does not build the text-label set from program.Texts (hoisted text labels would not be protected)")
 	if textMap != nil {
@@ -719,6 +783,43 @@ func c20e(c *Ctx) {
 			for _, call := range callsToIn(emit, f) {
 				args := call.Common().Args
 				c.Check(args[len(args)-1] == textMap, "Emit/passes-text-labels/"+f.Name(), c.W.Pos(call.Pos()), "text-label set handed to the script emitter", "the script emitter is not given the text-label set")
+			}
+		}
+		// ... and every other route to the script emitter hands on the set its caller was given
+		if es := c.Fn("emitter.Emitter.emitScriptStatement"); es != nil {
+			var given func(f *ssa.Function, call ssa.CallInstruction, depth int) bool
+			given = func(f *ssa.Function, call ssa.CallInstruction, depth int) bool {
+				args := call.Common().Args
+				a := args[len(args)-1]
+				if f == emit {
+					return a == textMap
+				}
+				par, isPar := a.(*ssa.Parameter)
+				if !isPar || depth > 3 {
+					return false
+				}
+				if len(f.Params) == 0 || f.Params[len(f.Params)-1] != par {
+					return false
+				}
+				sites := c.W.callsTo(f)
+				n := 0
+				for _, s := range sites {
+					if isTestFunc(c.W, s.Parent()) {
+						continue
+					}
+					n++
+					if !given(s.Parent(), s, depth+1) {
+						return false
+					}
+				}
+				return n > 0
+			}
+			for _, call := range c.W.callsTo(es) {
+				f := call.Parent()
+				if f == emit || isTestFunc(c.W, f) {
+					continue
+				}
+				c.Check(given(f, call, 0), "passes-text-labels/"+c.W.FuncKey(f)+fmt.Sprintf("/emitScriptStatement@%d", c.T(f).callOrd[call]), c.W.Pos(call.Pos()), "the script emitter receives the text-label set built in Emit", "this call of emitScriptStatement does not hand on the text-label set built in Emit: labels in this script are not checked against text names")
 			}
 		}
 		if es := c.Fn("emitter.Emitter.emitScriptStatement"); es != nil {
